@@ -32,6 +32,7 @@ ASSUMPTIONS = [
     'offset/item size/channel count yields a different term',
     'mtscomp.Reader replaced by a stub honouring its __getitem__ contract; real decoder only in witness replays',
     'call forms added after seeding rounds: dtype= keyword on npy/array readers, an earlier read of another symbolic range on the same reader, slice bounds / integer index given as unsigned NumPy scalars (uint8/16/32, values representable in the type)',
+    'round 7: recordings of fixed small sizes (1; 2+1; 3; 2 rows) next to the symbolic ones, so that error paths which format the index into a message stay explorable',
 ]
 STUBS = ['Path.stat().st_size', 'np.memmap (lambda array over the file bytes)', 'np.load(mmap_mode=r)',
          'mtscomp.Reader (contract stub)']
